@@ -409,7 +409,9 @@ def _core_fn(d):
 
 
 def _core_ok(d):
-  return not dsl.has(d, lambda st: st[0] in ('sow', 'perturb', 'leak'))
+  # (a core child scope is pushed per call: re-calling one child is a Module-level feature)
+  return not dsl.has(d, lambda st: st[0] in ('sow', 'perturb', 'leak') or
+                     (st[0] == 'child' and st[4] != 1))
 
 
 def _run_core(res, d):
